@@ -3,6 +3,7 @@
 package middleware
 
 import (
+	"strconv"
 	"context"
 	"time"
 
@@ -307,7 +308,14 @@ func HarnessC19Throttle() {
 	}
 	mw := th.Middleware(h)
 	for i := 0; i < 2; i++ {
-		out, err := mw(message.NewMessage("m", nil))
+		msg := message.NewMessage("m", nil)
+		if vrt.Bool("m" + strconv.Itoa(i) + ".context.already.cancelled") {
+			// the rate limit does not depend on the state of the message's context
+			ctx, cancel := context.WithCancel(context.Background())
+			cancel()
+			msg.SetContext(ctx)
+		}
+		out, err := mw(msg)
 		vrt.Assert(sameMsgs(out, res.outs) && err == res.err, "result unchanged")
 	}
 	vrt.Observe("starts", starts)
